@@ -24,4 +24,5 @@ cp $wt/go.sum $vc/harness/go.sum 2>/dev/null
 cd $vc; export VERIF_REPO=$wt
 out=$(VERIF_SEED=${VERIF_SEED:-1} timeout ${SEEDCHECK_TIMEOUT:-3000} ./check $prop --tier $tier 2>&1)
 echo "== $(basename $(dirname $patch)) -> $prop ($tier)"
-echo "$out" | grep -E "^(VIOLATION|C[0-9]+:)|disagreement:|broken:" | cut -c1-${CUT:-500} | head -${HEAD:-8}
+echo "$out" | grep -E "^(VIOLATION|C[0-9]+:)" | cut -c1-300
+echo "$out" | grep -E "disagreement:|broken:" | cut -c1-${CUT:-500} | head -${HEAD:-6}
